@@ -241,6 +241,12 @@ WeakPremise(e) ==
   /\ AllRanked(e.a) /\ AllRanked(e.b) /\ ResRanked(e.rb)
   /\ (ResRanked(e.ra) \/ (e.rb.ok /\ ~HasNumBounds(e.rb.val)))    \* an order is needed only against numeric bounds
   /\ \A i \in 1..Len(e.a) : Admits(e.b[i], e.a[i])
+\* the placeholder REQUESTED by the generator (bq, logged when it differs from what the library built) admits the replaced part,
+\* but the value the refinement API actually returned for those statements does not: the API turned true statements about the
+\* replaced part into a value that excludes it
+BuiltBreaks(e) == e.ev = "pair" /\ e.rel = "weak" /\ Has(e, "bq") /\ Len(e.bq) = Len(e.a) /\ Len(e.b) = Len(e.a)
+                  /\ AllRanked(e.a) /\ AllRanked(e.b) /\ AllRanked(e.bq)
+                  /\ (\A i \in 1..Len(e.a) : Admits(e.bq[i], e.a[i])) /\ (\E i \in 1..Len(e.a) : ~Admits(e.b[i], e.a[i]))
 WeakFailed(e, P) ==
   (IF Has(e, "rbs") /\ Len(e.rbs) # 1 THEN {"C20.Pure"} ELSE {}) \cup InputsChanged(e) \cup
   IF ~e.ra.ok THEN {}       \* failing concrete calls are outside the quantifier
